@@ -62,8 +62,25 @@ func (g *zoneGen) services(owner, origin string, tag string) {
 	n := core.Between(g.r, 1, 3)
 	mode := g.r.IntN(4) // 0 all ech, 1 none, 2/3 mixed
 	haveNoTarget := false
+	// hintsOnly: a name without address records whose ServiceMode records all
+	// point at the name itself, each with address hints (and a config) of its own
+	hintsOnly := len(g.z.A[origin]) == 0 && len(g.z.AAAA[origin]) == 0 && g.z.CNAME[origin] == "" && core.Chance(g.r, 1, 2)
+	if hintsOnly {
+		n = core.Between(g.r, 2, 3)
+	}
 	for i := 0; i < n; i++ {
 		rec := SvcRec{Priority: uint16(1 + i*2 + g.r.IntN(2))}
+		if hintsOnly {
+			if mode != 1 && !(mode >= 2 && i == n-1) {
+				rec.ECH = g.ech()
+			}
+			rec.V4Hint = []string{g.v4()}
+			if core.Chance(g.r, 1, 3) {
+				rec.V6Hint = []string{g.v6()}
+			}
+			g.z.HTTPS[owner] = append(g.z.HTTPS[owner], rec)
+			continue
+		}
 		switch mode {
 		case 0:
 			rec.ECH = g.ech()
